@@ -139,4 +139,13 @@ def check(prop, tier, replay=None):
     V.cov["traces_validated_against_impl"] += len(cases)
     V.count(len(cases), (canon(c) for c in cases))
     V.sample({"leg": "T", "case": cases[0]})
-    return V.finish(rule="seeded cases against a fake pyaudio module (player chunking, microphone load, microphone source), judged by TLC on Mic.tla")
+    rc = V.finish(rule="seeded cases against a fake pyaudio module (player chunking, microphone load, microphone source), judged by TLC on Mic.tla")
+    # X01 is not a listed property: its evidence goes to out/, not to evidence/
+    import os
+    import shutil
+    from .common import EVIDENCE, OUT
+    try:
+        shutil.move(os.path.join(EVIDENCE, "X01.json"), os.path.join(OUT, "X01.json"))
+    except OSError:
+        pass
+    return rc
